@@ -171,6 +171,10 @@ type Machine struct {
 	nowSeq   int
 	fs       *fsState
 	curFrame *frame
+	facts    facts
+	digitCache []digitEntry
+	digitSeq   int
+	memo       map[string]bool
 }
 
 type obsRec struct {
@@ -228,6 +232,7 @@ func (m *Machine) stack(fr *frame) string {
 func (m *Machine) assertPC(t *Term) {
 	m.pcN++
 	m.solver.Assert(t)
+	m.facts.learn(t)
 }
 
 // decide forks on a symbolic condition.
@@ -235,6 +240,60 @@ func (m *Machine) decide(c *Term) bool {
 	if c.IsConst() {
 		return c.K != 0
 	}
+	if known, v := m.facts.qeval(c); known {
+		return v
+	}
+	// a condition already decided on this path is implied by the path condition
+	key := termKey(c)
+	if v, ok := m.memo[key]; ok {
+		return v
+	}
+	defer func() {
+		if r := recover(); r != nil {
+			panic(r)
+		}
+	}()
+	res := m.decide1(c)
+	m.memo[key] = res
+	if c.Op == "bnot" {
+		m.memo[termKey(c.Args[0])] = !res
+	} else {
+		m.memo["(!"+key+")"] = !res
+	}
+	return res
+}
+
+func termKey(t *Term) string {
+	var sb strings.Builder
+	var rec func(t *Term)
+	rec = func(t *Term) {
+		switch t.Op {
+		case "const":
+			fmt.Fprintf(&sb, "%d:%d", t.K, t.W)
+		case "var":
+			sb.WriteString(t.Name)
+		case "bnot":
+			sb.WriteString("(!")
+			rec(t.Args[0])
+			sb.WriteByte(')')
+		default:
+			sb.WriteByte('(')
+			sb.WriteString(t.Op)
+			if t.Op == "conv" {
+				fmt.Fprintf(&sb, "%d%v", t.W, t.S)
+			}
+			for _, a := range t.Args {
+				sb.WriteByte(' ')
+				rec(a)
+			}
+			sb.WriteByte(')')
+		}
+	}
+	rec(t)
+	return sb.String()
+}
+
+func (m *Machine) decide1(c *Term) bool {
 	if m.pos < len(m.prefix) {
 		d := m.prefix[m.pos]
 		m.pos++
